@@ -2,16 +2,29 @@
   iso   : P1;…;Pn;Q in one process (separate interpreters, and one shared interpreter) vs Q in a brand-new process
   race  : N goroutines × reps through one shared Interpreter (LoadScript(src).Execute), plain and under the Go race
           detector (a second harness binary built with -race)
+  pgiso : the same matrix through the REAL handlers of pkg/server (harness op `hseq`): one shared interpreter, one
+          server.NewZnPlaygroundHandler and one server.NewZnHttpHandler; request i = a polluter (as SourceCode, inside a VarInput
+          text, as the entry program of the web handler, or a request the handler must refuse: malformed JSON, unreadable body,
+          syntax error), request i+1 = a probe; EVERY response of the sequence must equal the response the same request gets as
+          the only request of a brand-new process
+  srv   : server.NewZnThreadServer started through Interpreter.SetMainServer(…).Listen(url) on a loopback port / a unix socket,
+          N goroutine clients × M requests over real connections, every request with its own source text and its own expected
+          answer (harness op `srv`), in the normal build and under the race detector
 The process model (what is shared) is tied to the source by regenerated facts (Generated/Process.lean)."""
-import os, subprocess, itertools
+import os, subprocess, itertools, json
+from concurrent.futures import ThreadPoolExecutor
 from zngen import cps
 import framework as fw
+from props import srvgen as sg
 
 RULE = ("iso: every polluter (constructor redefinition of the predefined type and of user types, every mutating method applicable to a "
         "predefined value, failing calls that leave frames, library imports, declarations of the names the probes use, uncaught errors) × "
         "every probe, sequences of 1–3 polluters, with separate interpreters and with one shared interpreter; the probe's outcome must equal "
         "its outcome in a fresh process. race: 8/32 goroutines × 150/1500 requests of 6 distinct programs through one shared interpreter; any "
-        "foreign result or race report fails. Non-trivial = the sequence contains a polluter that touches something the probe reads.")
+        "foreign result or race report fails. pgiso: the polluter × probe matrix as HTTP requests through one ZnPlaygroundHandler / one ZnHttpHandler "
+        "over one shared interpreter (polluters also inside VarInput texts, malformed JSON, unreadable bodies, syntax errors), every response = "
+        "the response to that request alone in a fresh process. srv: ZnThreadServer on a loopback port / unix socket, 16/32 clients × 30/400 "
+        "requests with distinct sources and answers each, plain and under -race. Non-trivial = the sequence contains a polluter that touches something the probe reads.")
 ASSUMPTIONS = ["data-race freedom in the Go memory model is sampled by the race detector, not proved",
                "pkg/server's handlers call LoadFile/LoadScript(...).Execute on a shared interpreter exactly as the race op does (pkg/server itself needs the Linux pipe hook to compile)"]
 PARTIAL = "the Lean model proves the logical part (nothing mutable is shared; a request runs its own source under every interleaving); scheduler behaviour is runtime"
@@ -80,6 +93,289 @@ REEXEC = {
 }
 
 
+# ---- the real handlers (pgiso) and the real server (srv) -------------------------------------------------------------
+# requests for the playground handler whose VarInput text does the polluting (the text is compiled and evaluated by
+# exec.ExecVarInputText before the program runs): (VarInput, SourceCode)
+VARINPUT_POLLUTERS = {
+    'vi-mutate-predefined-number': ('甲 = 以数值（自增：5）', '输入甲\n以数值（自减：2）\n输出甲\n'),
+    'vi-exception-class-ctor': ('类 = 异常', '输入类\n如何新建类？\n    输入话\n    其内容 = “劫持”\n'),
+    'vi-exception-object-changed': ('错 = （新建异常：“x”）', '输入错\n错之内容 = “劫持”\n输出错之内容\n'),
+    'vi-list-grown': ('甲 = 【1，2】', '输入甲\n以甲（后增：3）\n输出甲\n'),
+    'vi-text-to-number': ('甲 = 以“1*^3”（转换数值）\n乙 = “1*^3”', '输入甲、乙\n令丙设为以乙（转换数值）\n输出【甲，丙】\n'),
+    'vi-probe-names': ('探针 = 99\n名 = “劫持”', '输入探针、名\n如何查？\n    输出 -1\n定义狗：\n    其名设为“劫持”\n输出探针\n'),
+    'vi-division-by-zero': ('甲 = 1 / 0', '输入甲\n输出甲\n'),
+    'vi-undefined-name': ('甲 = 乙', '输入甲\n输出甲\n'),
+    'vi-half-assignment': ('甲 = ', '输入甲\n输出甲\n'),
+    'vi-not-an-assignment': ('输出 1', '输出 2\n'),
+    'vi-syntax-error': ('令令令', '输出 2\n'),
+    'vi-ok-source-syntax-error': ('甲 = 1', '输入甲\n令令令\n'),
+    'vi-ok-source-fails': ('甲 = 0', '输入甲\n如何坏？\n    输出 1 / 甲\n（坏）\n'),
+    'vi-missing-input': ('甲 = 1', '输入甲、乙\n输出乙\n'),
+}
+# requests the playground handler must refuse before any program runs (respondError): raw body bytes, truncated?
+REFUSED = {
+    'json-cut': (b'{', False), 'json-array': (b'[1,2]', False), 'json-string': (b'"x"', False), 'json-empty-body': (b'', False),
+    'json-source-not-text': (b'{"SourceCode": 5}', False), 'json-varinput-not-text': ('{"SourceCode":"输出 1","VarInput":7}'.encode(), False),
+    'json-invalid-utf8': (b'{"SourceCode":"\xff\xfe"}', False), 'json-trailing': ('{"SourceCode":"输出 1"} x'.encode(), False),
+    'body-ends-early': ('{"SourceCode":"输出 1"}'.encode(), True), 'body-ends-early-empty': (b'', True),
+    'json-no-source': (b'{}', False), 'json-other-fields': ('{"sourcecode":"输出 5","Extra":[1]}'.encode(), False),
+}
+VARINPUT_PROBES = {
+    'vi-predefined-number': ('甲 = 数值', '输入甲\n输出【甲，数值】\n'),
+    'vi-exception-object': ('错 = （新建异常：“甲”）', '输入错\n输出错之内容\n'),
+    'vi-exception-class': ('类 = 异常', '输入类\n输出（新建类：“话”）之内容\n'),
+    'vi-two-values': ('甲 = 【1，2】\n乙 = “1*^3”', '输入甲、乙\n输出【甲，乙，探针】\n'),
+    'vi-arith': ('甲 = 41 + 100', '输入甲\n输出 甲 + 1\n'),
+    # the very VarInput texts the polluting requests send
+    'vi-same-text-list': ('甲 = 【1，2】', '输入甲\n输出甲\n'),
+    'vi-same-text-exception': ('错 = （新建异常：“x”）', '输入错\n输出错之内容\n'),
+    'vi-same-text-class': ('类 = 异常', '输入类\n如何试？\n    抛出类：“真话”！\n    拦截类：\n        输出 其内容\n输出（试）\n'),
+}
+WEB_GET = dict(method='GET', target='/入口?k=1', headers=[('X-Id', '7')], body='')
+
+
+def handler_requests():
+    """name → step, for the polluting and the probing side"""
+    pol, prb = {}, {}
+    for n, src in POLLUTERS.items():
+        pol['pg:' + n] = sg.pg_step(src)
+        pol['web:' + n] = sg.http_step(src, **WEB_GET)
+    for n, (vi, src) in VARINPUT_POLLUTERS.items():
+        pol['pg:' + n] = sg.pg_step(src, vi)
+    for n, (raw, cut) in REFUSED.items():
+        pol['pg:' + n] = sg.pg_step(raw=raw, truncated=cut)
+    pol['web:body-ends-early'] = sg.http_step('输入当前请求\n输出当前请求之内容\n', 'POST', '/入口', [('Content-Type', 'application/json')], '{"a":1}', kind='httpT')
+    pol['web:json-body-cut'] = sg.http_step('输入当前请求\n输出当前请求之内容\n', 'POST', '/入口', [('Content-Type', 'application/json')], '{"a":')
+    pol['web:request-object-changed'] = sg.http_step('输入当前请求\n当前请求之头部#“X-Id” = “劫持”\n当前请求之方法 = “劫持”\n以当前请求之查询参数（移除：“k”）\n输出当前请求之头部\n', **WEB_GET)
+    for n, src in PROBES.items():
+        prb['pg:' + n] = sg.pg_step(src)
+        prb['web:' + n] = sg.http_step(src, **WEB_GET)
+    for n, (vi, src) in VARINPUT_PROBES.items():
+        prb['pg:' + n] = sg.pg_step(src, vi)
+    prb['web:request-object'] = sg.http_step('输入当前请求\n输出【当前请求之方法，当前请求之路径，当前请求之头部，当前请求之查询参数，当前请求之内容】\n', **WEB_GET)
+    return pol, prb
+
+
+def fresh_answers(ctx, steps):
+    """every distinct request as the ONLY request of a brand-new harness process"""
+    names = list(steps)
+    size = max(1, (len(names) + 3) // 4)
+    chunks = [names[i:i + size] for i in range(0, len(names), size)]
+
+    def ask(chunk):
+        a = ctx.run_go(['hfresh %d %s' % (len(chunk), ' '.join(steps[n] for n in chunk))], timeout_ms=120000, parallel=False)[0]
+        parts = a.split(' ;; ')
+        return parts if len(parts) == len(chunk) else [a] * len(chunk)
+    with ThreadPoolExecutor(max_workers=4) as ex:
+        outs = [x for part in ex.map(ask, chunks) for x in part]
+    return dict(zip(names, outs))
+
+
+def solo_answers(ctx, steps):
+    """every distinct request as the first request of a new interpreter + new handlers, inside ONE harness process; asked twice, in
+    opposite orders and in two processes — an answer that depends on what the process served before is no oracle (returned as None)"""
+    names = list(steps)
+    fwd = 'hsolo %d %s' % (len(names), ' '.join(steps[n] for n in names))
+    rev = 'hsolo %d %s' % (len(names), ' '.join(steps[n] for n in reversed(names)))
+    with ThreadPoolExecutor(max_workers=2) as ex:
+        a, b = list(ex.map(lambda l: ctx.run_go([l], timeout_ms=120000, parallel=False)[0], [fwd, rev]))
+    pa, pb = a.split(' ;; '), list(reversed(b.split(' ;; ')))
+    if len(pa) != len(names) or len(pb) != len(names):
+        return {n: a for n in names}, []
+    unstable = []
+    for i, (n, x, y) in enumerate(zip(names, pa, pb)):
+        if x == y:
+            continue
+        # reduce: the request alone in a new process, and after one predecessor in another new process
+        case, got, alone = fwd, x, y
+        if len(unstable) < 4:
+            alone = ctx.run_go(['hsolo 1 ' + steps[n]], timeout_ms=20000, parallel=False)[0]
+            for prev in ([names[i - 1]] if i > 0 else []) + ([names[i + 1]] if i + 1 < len(names) else []) + [n]:
+                line = 'hsolo 2 %s %s' % (steps[prev], steps[n])
+                a2 = ctx.run_go([line], timeout_ms=20000, parallel=False)[0].split(' ;; ')
+                if len(a2) == 2 and a2[1] != alone:
+                    case, got = line, a2[1]
+                    break
+            else:
+                got = x if x != alone else y
+        unstable.append((n, case, got, alone))
+    return dict(zip(names, pa)), unstable
+
+
+def pgiso_stream(ctx):
+    rng = ctx.rng
+    pol, prb = handler_requests()
+    allreq = dict(pol)
+    allreq.update(prb)
+    if ctx.quick():
+        # a process start costs 0.1–0.2 s here: the probing requests (the oracle of "request i+1") are answered by brand-new
+        # processes, the polluting requests' own answers by new interpreter + handlers in one process (thorough: all by new processes)
+        fresh = fresh_answers(ctx, prb)
+        solo, unstable = solo_answers(ctx, pol)
+        for n, case, got, alone in unstable:
+            ctx.violation('pgiso:new-interpreter', case, 'request %s on a new interpreter + new handlers, after other requests of the process: %s' % (n, sg.show(got)),
+                          sg.show(alone) + '   (the same request alone in a fresh process)')
+        fresh.update(solo)
+    else:
+        fresh = fresh_answers(ctx, allreq)
+    if all(a == 'bad-op' for a in fresh.values()):
+        ctx.notes.append('pgiso/srv unavailable: pkg/server does not link (verif pipe hook pkg/server/name_pipe_linux.go absent from the tree)')
+        ctx.count('pgiso:unavailable')
+        return None, None
+    # a request that panics its handler or answers nothing usable even alone is no oracle for isolation: reported, not used
+    for n, a in fresh.items():
+        ctx.count('pgiso:fresh:' + (a.split(' ')[0] if sg.parse_resp(a) else a.split(' ')[0][:12]))
+    seqs = []
+    pg_pol = [n for n in pol if n.startswith('pg:')]
+    pg_prb = [n for n in prb if n.startswith('pg:')]
+    web_pol = [n for n in pol if n.startswith('web:')]
+    web_prb = [n for n in prb if n.startswith('web:')]
+    for p in pg_pol:                       # the full matrix through the playground handler
+        for q in pg_prb:
+            seqs.append([p, q])
+    for n in allreq:                       # the identical request twice: the second answer is the first one
+        seqs.append([n, n])
+    k = ctx.n(300, 10 ** 9)                # the three mixed combinations: a sample (quick) / everything (thorough)
+    for ps, qs in ((web_pol, web_prb), (pg_pol, web_prb), (web_pol, pg_prb)):
+        pairs = [[p, q] for p in ps for q in qs]
+        rng.shuffle(pairs)
+        seqs.extend(pairs[:k])
+    names = list(allreq)
+    for _ in range(ctx.n(250, 5000)):      # longer histories, probes and polluters in any order
+        seqs.append([rng.choice(names) for _ in range(rng.randint(3, 6))])
+    lines = ['hseq %d %s' % (len(sq), ' '.join(allreq[n] for n in sq)) for sq in seqs]
+    go = ctx.run_go(lines, timeout_ms=20000)
+    shown = 0
+    failing = []
+    for sq, line, g in zip(seqs, lines, go):
+        ctx.evaluations += 1
+        parts = g.split(' ;; ')
+        ctx.count('pgiso:history' if len(sq) > 2 else 'pgiso:same-request-twice' if sq[0] == sq[1] else 'pgiso:%s→%s' % (sq[0].split(':')[0], sq[1].split(':')[0]))
+        if parts != [fresh[n] for n in sq]:
+            failing.append((sq, line, g))
+        ctx.nontriv(line)
+        if shown < 1 and len(sq) == 2 and sq[0] == 'pg:redefine-exception-ctor':
+            shown += 1
+            ctx.sample({'stream': 'pgiso', 'sequence': sq, 'responses': [sg.show(x) for x in parts]})
+    # a sequence that also fails as the only line of a new process is a self-contained failing history: those are reported first
+    # (state kept at package level makes a sequence fail only because of the sequences the same harness process served before it)
+    failing.sort(key=lambda t: len(t[0]))
+    own, carried = [], []
+    for sq, line, g in failing:
+        if len(own) < 3 and len(own) + len(carried) < 24:
+            g2 = ctx.run_go([line], timeout_ms=20000, parallel=False)[0]
+            if g2.split(' ;; ') != [fresh[n] for n in sq]:
+                own.append((sq, line, g2, ''))
+                continue
+        carried.append((sq, line, g, '   [seen after other sequences in the same harness process]'))
+    for sq, line, g, note in own + carried:
+        parts = g.split(' ;; ')
+        want = [fresh[n] for n in sq]
+        bad = next((i for i in range(len(sq)) if i >= len(parts) or parts[i] != want[i]), 0)
+        gotk = parts[bad] if bad < len(parts) else g
+        ctx.violation('pgiso', line, 'response %d (%s) after %s: %s' % (bad + 1, sq[bad], '+'.join(sq[:bad]) or 'no other request of this sequence',
+                                                                        sg.show(gotk) + ' | ' + gotk.rpartition(' | ')[2][:80]) + note,
+                      sg.show(want[bad]) + ' | ' + want[bad].rpartition(' | ')[2][:80] + '   (the same request alone in a fresh process)')
+    ctx.streams.append({'stream': 'pgiso', 'cases': len(lines), 'polluting_requests': len(pol), 'probing_requests': len(prb),
+                        'refused_requests': len(REFUSED) + 2, 'varinput_polluters': len(VARINPUT_POLLUTERS)})
+    return allreq, fresh
+
+
+def srv_requests(K):
+    """K families of requests, every one with its own source and (where the manual fixes it) its own known answer"""
+    pg, known = {}, {}
+    for k in range(1, K + 1):
+        pg['const-%d' % k] = sg.pg_step('输出 %d\n' % (1000 + k)); known['const-%d' % k] = (200, str(1000 + k))
+        pg['names-%d' % k] = sg.pg_step('令甲设为%d\n如何算？\n    输出 甲 * 2\n定义狗：\n    其名设为“狗%d”\n输出【（算），（新建狗）之名】\n' % (k, k))
+        known['names-%d' % k] = (200, '[%d，狗%d]' % (2 * k, k))
+        pg['loop-%d' % k] = sg.pg_step('令和设为0\n令次设为0\n每当次 < 150：\n    次 = 次 + 1\n    和 = 和 + %d\n输出 和\n' % k); known['loop-%d' % k] = (200, str(150 * k))
+        pg['throw-%d' % k] = sg.pg_step('如何坏？\n    抛出异常：“错%d号”！\n（坏）\n' % k); known['throw-%d' % k] = (500, '错%d号' % k)
+        pg['varinput-%d' % k] = sg.pg_step('输入甲\n输出 甲 + 1\n', '甲 = %d' % (7000 + k)); known['varinput-%d' % k] = (200, str(7001 + k))
+        pg['varinput-bad-%d' % k] = sg.pg_step('输入甲\n输出 甲\n', '甲 = 无名%d号' % k); known['varinput-bad-%d' % k] = (500, '无名%d号' % k)
+        pg['json-%d' % k] = sg.pg_step('导入《@JSON》\n输出（生成JSON：【k = %d】）\n' % k); known['json-%d' % k] = (200, '{"k":%d}' % k)
+        pg['ctor-%d' % k] = sg.pg_step('如何新建异常？\n    输入话\n    其内容 = “劫持%d”\n如何试？\n    抛出异常：“真话”！\n    拦截异常：\n        输出 其内容\n输出（试）\n' % k)
+        pg['catch-%d' % k] = sg.pg_step('如何试？\n    抛出异常：“真话%d”！\n    拦截异常：\n        输出 其内容\n输出（试）\n' % k); known['catch-%d' % k] = (200, '真话%d' % k)
+        pg['number-%d' % k] = sg.pg_step('以数值（自增：%d）\n输出 数值\n' % k)
+    pg['syntax'] = sg.pg_step('令令令\n'); known['syntax'] = (500, None)
+    pg['malformed'] = sg.pg_step(raw=b'{'); known['malformed'] = (500, None)
+    entry = ('输入当前请求\n令体设为当前请求之内容\n令数设为体#“n”\n输出【“k” = 当前请求之查询参数#“k”，“倍” = 数 * 2，“头” = 当前请求之头部#“X-Id”，“法” = 当前请求之方法】\n')
+    web = {}
+    J = [('Content-Type', 'application/json')]
+    for k in range(1, 3 * K + 1):
+        web['echo-%d' % k] = sg.http_step(entry, 'POST', '/入口?k=%d' % k, J + [('X-Id', 'id%d' % k)], '{"n":%d}' % (10 * k))
+        known['web:echo-%d' % k] = (200, json.dumps({'k': str(k), '倍': 20 * k, '头': 'id%d' % k, '法': 'POST'}, ensure_ascii=False, separators=(',', ':')))
+    web['bad-json'] = sg.http_step(entry, 'POST', '/入口?k=0', J + [('X-Id', 'x')], '{"n":'); known['web:bad-json'] = (500, None)
+    web['wrong-type'] = sg.http_step(entry, 'PUT', '/入口?k=0', J + [('X-Id', 'x')], '{"n":"文"}'); known['web:wrong-type'] = (500, None)
+    web['no-key'] = sg.http_step(entry, 'POST', '/入口', J + [('X-Id', 'x')], '{"n":1}'); known['web:no-key'] = (500, None)
+    return pg, web, known
+
+
+def run_under_race_detector(line, timeout_ms=600000):
+    rb = fw.B + '/znharness-race'
+    if not os.path.exists(rb):
+        return None
+    p = subprocess.run([rb], input=line + '\n', stdout=subprocess.PIPE, stderr=subprocess.PIPE, text=True,
+                       env=dict(os.environ, ZNH_TIMEOUT_MS=str(timeout_ms), GORACE='halt_on_error=0'))
+    races = p.stderr.count('WARNING: DATA RACE')
+    first = p.stderr.split('WARNING: DATA RACE', 1)[1][:1500] if races else ''
+    return p.stdout.strip(), races, first
+
+
+def srv_stream(ctx):
+    K = ctx.n(2, 4)
+    pg, web, known = srv_requests(K)
+    both = {'pg:' + n: s for n, s in pg.items()}
+    both.update({'web:' + n: s for n, s in web.items()})
+    if ctx.quick():
+        fresh, unstable = solo_answers(ctx, both)
+        for n, case, got, alone in unstable:
+            ctx.violation('srv:new-interpreter', case, 'request %s on a new interpreter + new handlers, after other requests of the process: %s' % (n, sg.show(got)),
+                          sg.show(alone) + '   (the same request alone in a fresh process)')
+    else:
+        fresh = fresh_answers(ctx, both)
+    if all(a == 'bad-op' for a in fresh.values()):
+        return
+    # the solo answers are themselves checked against what the program text says (the oracle of srv is not just "same as alone")
+    for n, (status, body) in known.items():
+        key = n if n.startswith('web:') else 'pg:' + n
+        p = sg.parse_resp(fresh[key])
+        ctx.evaluations += 1
+        got = p and (p[0], p[2].decode('utf-8', 'replace'))
+        okk = p is not None and p[0] == status and (body is None or (body == got[1] if status == 200 else body in got[1]))
+        if not okk:
+            ctx.violation('srv:solo-answer', 'hseq 1 ' + both[key], sg.show(fresh[key]), '%d %r   (request %s: the answer its own source prescribes)' % (status, body, n))
+    clients, reps = ctx.n(16, 32), ctx.n(30, 400)
+    rclients, rreps = ctx.n(8, 16), ctx.n(12, 150)
+    for fam, transport, reqs in (('pg', 'tcp', pg), ('web', 'unix', web), ('pg', 'unix', pg), ('web', 'tcp', web)):
+        if ctx.quick() and (fam, transport) in (('pg', 'unix'), ('web', 'tcp')):
+            continue
+        names = list(reqs)
+        pairs = ' '.join('%s %s' % (reqs[n], sg.hx(sg.wire_want(fresh[fam + ':' + n]) or 'unusable')) for n in names)
+        line = 'srv %s %d %d %d %s' % (transport, clients, reps, len(names), pairs)
+        out = ctx.run_go([line], timeout_ms=300000, parallel=False)[0]
+        ctx.evaluations += clients * reps
+        ctx.count('srv:%s:%s:requests' % (fam, transport), clients * reps)
+        ctx.nontriv(line)
+        if not (out.startswith('ok %d ' % (clients * reps)) and out.endswith('nohandler=err badscheme=err badurl=err inuse=err')):
+            m = out.split(' ')
+            idx = int(m[1][4:]) if out.startswith('mismatch req=') else -1
+            ctx.violation('srv:' + fam, line, out[:1500] + ('   (request %s)' % names[idx] if idx >= 0 else ''),
+                          'ok %d nohandler=err badscheme=err badurl=err inuse=err   (every client gets the answer of ITS request; Start refuses a missing handler, an unknown scheme, a malformed URL and an address in use)' % (clients * reps))
+        rline = 'srv %s %d %d %d %s' % (transport, rclients, rreps, len(names), pairs)
+        r = run_under_race_detector(rline)
+        if r is None:
+            continue
+        rout, races, first = r
+        ctx.evaluations += rclients * rreps
+        ctx.count('srv:%s:race-detector:requests' % fam, rclients * rreps)
+        ctx.count('srv:race-detector:reports', races)
+        if races or not rout.startswith('ok '):
+            ctx.violation('srv-race-detector:' + fam, rline, ('DATA RACE ×%d: %s' % (races, first)) if races else rout[:1500], 'no race report, every answer its own')
+    ctx.streams.append({'stream': 'srv', 'cases': 2 if ctx.quick() else 4, 'clients': clients, 'requests_per_client': reps,
+                        'distinct_requests': len(both), 'under_race_detector': '%d×%d' % (rclients, rreps)})
+    ctx.sample({'stream': 'srv', 'request': 'names-1', 'solo': sg.show(fresh['pg:names-1'])})
+
+
 def run(ctx):
     rng = ctx.rng
     # ---- iso ------------------------------------------------------------------------------------------
@@ -118,6 +414,10 @@ def run(ctx):
             ctx.violation('reexec', line, g, want + '   (the program %s alone in a fresh process, three times)' % r)
         ctx.nontriv(line)
     ctx.streams.append({'stream': 'reexec', 'cases': len(rlines)})
+    # ---- the real handlers and the real server -----------------------------------------------------------------------
+    if os.environ.get('VERIF_C16_HANDLERS', '1') != '0':
+        pgiso_stream(ctx)
+        srv_stream(ctx)
     # the spec side of iso is the probe alone on the model evaluator from its pristine initial state
     from props import progs
     # (model correspondence of the probes themselves)
@@ -153,5 +453,15 @@ def run(ctx):
 def replay(ctx, data):
     case = data['case']
     print('case:', case[:300])
-    print('go  :', ctx.run_go([case], timeout_ms=120000)[0])
+    g = ctx.run_go([case], timeout_ms=300000)[0]
+    print('go  :', g[:3000])
+    if case.startswith('hseq ') or case.startswith('hsolo '):
+        for i, r in enumerate(g.split(' ;; ')):
+            print('  response %d: %s | %s' % (i + 1, sg.show(r), r.rpartition(' | ')[2][:120]))
+        steps = case.split(' ')[2:]
+        for i, st in enumerate(steps):
+            if len(steps) > 8 and i >= 8:
+                break
+            a = ctx.run_go(['hseq 1 ' + st], timeout_ms=20000, parallel=False)[0]
+            print('  request %d alone in a fresh process: %s | %s' % (i + 1, sg.show(a), a.rpartition(' | ')[2][:120]))
     print('want:', data.get('spec'))
